@@ -444,7 +444,7 @@ static void exec_asm(Run &R, TaskRt &T, int ti, int oi, const Op &op) {
   } else {
     a.text = op.text();
   }
-  a.lines = split_lines(a.text);
+  a.lines = a.via_file ? split_lines(a.text) : op.lines;  // (a plan's lines may be joined by CR LF or a lone CR)
   InstModel &m = I.m;
   const bool unspec_before = m.offset_unspec;
   const bool explicit_off = m.offset_explicit;
@@ -684,6 +684,21 @@ static void exec_asm(Run &R, TaskRt &T, int ti, int oi, const Op &op) {
   if (k.reserve_edge) R.st.bump("reserve_edge");
   coverage_note(sk, mix64(sk, (uint64_t)op.kind * 16 + (uint64_t)k.expect_fail * 2 + (uint64_t)(ret & 1)));
 
+  // Before blaming the call: does a line of this call, assembled alone on a fresh instance *now*, still give
+  // what it gave earlier in this process?  If not, the library's behaviour drifts with what the process did
+  // before (state shared between instances, e.g. a stale errno): reported as such (C06, C15).
+  if ((!k.ret_ok && k.expect_fail != FR_FAULT) || !k.bytes_ok || !k.fit_ok || !k.off_ok || !k.count_ok) {
+    size_t checked = 0;
+    for (const std::string &ln : a.lines) {
+      if (++checked > 40) break;
+      if (!enc_recheck(ln, m.opts(), 0x5A)) {
+        violate(R, ti, oi, &op, "oracle_unstable",
+                "line \"" + ln.substr(0, 80) + "\" assembled alone on a fresh instance now gives another result than earlier in this process", a.mode,
+                m.external, explicit_off);
+        return;
+      }
+    }
+  }
   if (!k.ret_ok) {
     bool fault_cls = k.expect_fail == FR_FAULT;
     violate(R, ti, oi, &op, fault_cls ? "fault_ret" : "ret", k.detail, a.mode, m.external, explicit_off, k.expect_fail, a.via_file);
@@ -823,7 +838,7 @@ static void exec_create(Run &R, TaskRt &T, int ti, int oi, const Op &op) {
   }
   if (op.twin) {
     Inst *W = new Inst();
-    long n = 64 * 6000 + 8192;
+    long n = 1800000;  // "a sufficiently large caller buffer"
     W->ext = extbuf_new((size_t)n, 0, 0x00, op.uid ^ 0x77);
     if (W->ext >= 0) {
       int wj = in_lib(R, T.actx, [&] { W->al = lib::create(extbuf_ptr(W->ext), (int)n); });
